@@ -61,12 +61,21 @@ case "$ID" in
     exit $? ;;
 esac
 case "$ID" in
-  C10|C08)
-    # sequential check + concurrent-callers phase: prover helpers instrumented, run under the scheduler.
-    # If the tree cannot be instrumented the plain build runs (phase recorded as not explored).
-    FILES="prover/marshal.go prover/insertion_proving_system.go prover/deletion_proving_system.go"
+  C10|C08|C01|C02|C04|C05|C06)
+    # sequential check + concurrent-callers phase: the code under check is instrumented and two threads
+    # run it under the scheduler. If the tree cannot be instrumented the plain build runs (phase
+    # recorded as not explored).
+    INSOPT=""
+    case "$ID" in
+      C10|C08) FILES="prover/marshal.go prover/insertion_proving_system.go prover/deletion_proving_system.go" ;;
+      C05) FILES="prover/poseidon/poseidon.go" ;;
+      C04) FILES="prover/keccak/keccak.go"; INSOPT="-funclevel prover/keccak/keccak.go" ;;
+      C06) FILES="prover/circuit_utils.go" ;;
+      C01) FILES="prover/circuit_utils.go prover/insertion_circuit.go prover/poseidon/poseidon.go" ;;
+      C02) FILES="prover/circuit_utils.go prover/deletion_circuit.go prover/poseidon/poseidon.go" ;;
+    esac
     if go build -C "$HERE" -modfile="$SCRATCH/go.mod" -o "$BIN/instrument" ./cmd/instrument 2> "$SCRATCH/build3.log" \
-       && "$BIN/instrument" -repo "$VERIF_REPO" -rt "$HERE/verifrt" -out "$SCRATCH/ins-$ID" $FILES 2> "$SCRATCH/ins.log" \
+       && "$BIN/instrument" $INSOPT -repo "$VERIF_REPO" -rt "$HERE/verifrt" -out "$SCRATCH/ins-$ID" $FILES 2> "$SCRATCH/ins.log" \
        && go build -C "$HERE" -modfile="$SCRATCH/go.mod" -overlay "$SCRATCH/ins-$ID/overlay.json" -tags verif -o "$BIN/vsched-$ID" ./cmd/vsched 2> "$SCRATCH/build4.log"; then
       "$BIN/vsched-$ID" "$ID" "$@"
       exit $?
